@@ -71,6 +71,16 @@ def make_cases(ctx):
     for k in negs:
         for r in range(ctx.pick(2, 10)):
             yield "neg-%s-%d" % (k, r), dict(neg=k, r=r)
+    # KeyUpdates crossing a post-handshake authentication request, for every
+    # way the request can be configured
+    for comp in ("default", "none", "zlib"):
+        for sig in ("default", "one"):
+            for kinds in ((True,), (False,), (True, False), (False, False)):
+                for sku in (0, 1):
+                    yield ("cross-%s-%s-%s-%d" % (
+                        comp, sig, "".join("rn"[not k] for k in kinds), sku),
+                        dict(cross=True, comp=comp, sig=sig,
+                             kinds=list(kinds), sku=sku))
 
 
 def establish(rng, ver, with_tickets, ckey, hb=True, suite=None,
@@ -167,7 +177,8 @@ def run_history(ctx, cid, P):
             plan[who].append(("ku", rng.random() < 0.5))
             used.add("ku")
         elif r < 0.80 and t13 and who == "s" and ckey:
-            plan[who].append(("pha",))
+            plan[who].append(("pha", rng.choice([None, None, "none",
+                                                 "zlib"])))
             pha_requests += 1
             used.add("pha")
         elif r < 0.92:
@@ -215,7 +226,13 @@ def run_history(ctx, cid, P):
                     yield r
                 e.ku_sent += 1
             elif op[0] == "pha":
-                for r in conn.request_post_handshake_auth():
+                pst = None
+                if op[1]:
+                    from tlslite.handshakesettings import HandshakeSettings
+                    pst = HandshakeSettings()
+                    pst.certificate_compression_receive = \
+                        [] if op[1] == "none" else [op[1]]
+                for r in conn.request_post_handshake_auth(pst):
                     yield r
             elif op[0] == "hb":
                 if conn.heartbeat_supported and conn.heartbeat_can_send:
@@ -467,6 +484,131 @@ def run_pha_negative(ctx, cid, P):
                       "%s: server did not answer with a fatal alert" % k)
 
 
+def run_pha_cross(ctx, cid, P):
+    """the client's KeyUpdate(s) cross the server's CertificateRequest: the
+    server reads them while its request is pending.  Everything must go
+    through: keys in step, data delivered, the client authenticated."""
+    from tlslite.handshakesettings import HandshakeSettings
+    rng = ctx.rng
+    ckey = rng.choice(["rsa", "ecdsa"])
+    p, tc, ts = establish(rng, (3, 4), rng.random() < 0.3, ckey)
+    if tc.status != "done" or ts.status != "done":
+        ctx.inconc("control failed in %s" % cid)
+        return
+    st = HandshakeSettings()
+    if P["comp"] == "none":
+        st.certificate_compression_receive = []
+    elif P["comp"] == "zlib":
+        st.certificate_compression_receive = ["zlib"]
+    if P["sig"] == "one":
+        st.rsaSchemes = ["pss"]
+        st.rsaSigHashes = ["sha256"]
+        st.ecdsaSigHashes = ["sha256"]
+    key = {"ver": "TLS1.3", "hist": "pha_cross"}
+    W = {"case": cid, "params": P, "steps": []}
+
+    def step(name, conn, sock, gen):
+        t = drive.Task(name, gen, sock)
+        drive.run([t], p.link, max_steps=20000)
+        W["steps"].append([name, str(outcome(t))])
+        if t.status != "done":
+            ctx.ev()
+            ctx.violation(dict(key, clause="valid_history_failed",
+                               step=name.split(":")[0],
+                               exc=type(t.exc).__name__ if t.exc else
+                               t.status), W,
+                          "%s failed in a legal interleaving of KeyUpdate "
+                          "and post-handshake authentication: %r" % (
+                              name, t.exc))
+            return None
+        return t
+
+    def read_exact(conn, want):
+        got = bytearray()
+        while len(got) < len(want):
+            r = yield from drive.aread(conn, None, 1)
+            if not r:
+                break
+            got += r
+        return bytes(got)
+
+    def cku():
+        for k in P["kinds"]:
+            for r in p.c.send_keyupdate_request(
+                    KeyUpdateMessageType.update_requested if k
+                    else KeyUpdateMessageType.update_not_requested):
+                yield r
+        yield from drive.awrite(p.c, b"before-answer")
+
+    def sreq():
+        for r in p.s.request_post_handshake_auth(st):
+            yield r
+        for _ in range(P["sku"]):
+            for r in p.s.send_keyupdate_request(
+                    KeyUpdateMessageType.update_not_requested):
+                yield r
+    if step("s:request", p.s, p.ssock, sreq()) is None:
+        return
+    if step("c:keyupdate+write", p.c, p.csock, cku()) is None:
+        return
+    t = step("s:read-while-pending", p.s, p.ssock,
+             read_exact(p.s, b"before-answer"))
+    if t is None:
+        return
+    ok = t.result == b"before-answer"
+
+    def canswer():
+        # reading processes the request (and the server's KeyUpdates)
+        # (a read with min=0 handles one control message per call, plus
+        # whatever follows a KeyUpdate)
+        for _ in range(12):
+            if not (p.link.in_flight("s2c") or len(p.c.sock._read_buffer)):
+                break
+            g = p.c.readAsync(None, 0)
+            for r in g:
+                if isinstance(r, int) and r in (0, 1):
+                    if not p.link.in_flight("s2c") and \
+                            not len(p.c.sock._read_buffer):
+                        g.close()
+                        break
+                    yield r
+        yield from drive.awrite(p.c, b"after-answer")
+    if step("c:answer", p.c, p.csock, canswer()) is None:
+        return
+    t = step("s:read-answer", p.s, p.ssock, read_exact(p.s, b"after-answer"))
+    if t is None:
+        return
+    ok = ok and t.result == b"after-answer"
+    if step("s:reply", p.s, p.ssock, drive.awrite(p.s, b"reply")) is None:
+        return
+    t = step("c:read-reply", p.c, p.csock, read_exact(p.c, b"reply"))
+    if t is None:
+        return
+    ok = ok and t.result == b"reply"
+    ctx.ev()
+    ctx.count("pha_cross_histories")
+    ctx.cell("cell", "pha_cross|%s|%s|%d|%d" % (P["comp"], P["sig"],
+                                               len(P["kinds"]), P["sku"]))
+    if not ok:
+        ctx.violation(dict(key, clause="data_not_delivered"), W,
+                      "application data differs after KeyUpdate crossing a "
+                      "post-handshake authentication request")
+    chain = p.s.session.clientCertChain
+    want = creds.chain(ckey) if hasattr(creds, "chain") else None
+    if chain is None or not chain.x509List:
+        ctx.violation(dict(key, clause="pha_not_recorded"), W,
+                      "the client answered the request but the server's "
+                      "session has no client certificate")
+    elif p.c.session and p.c.session.clientCertChain is not None and \
+            bytes(chain.x509List[0].bytes) != bytes(
+                p.c.session.clientCertChain.x509List[0].bytes):
+        ctx.violation(dict(key, clause="pha_wrong_chain"), W,
+                      "server recorded another certificate than the client "
+                      "sent")
+    else:
+        ctx.count("pha_cross_authenticated")
+
+
 def run_ku_straddle(ctx, cid, P):
     """a KeyUpdate sharing its record with the first bytes of the next
     handshake message: that message would span the key change (RFC 8446 5.1).
@@ -659,6 +801,8 @@ def run(ctx):
     for cid, P in ctx.cases(make_cases(ctx)):
         if "neg" in P:
             run_negative(ctx, cid, P)
+        elif "cross" in P:
+            run_pha_cross(ctx, cid, P)
         else:
             run_history(ctx, cid, P)
 
@@ -668,6 +812,9 @@ def finalize(m, tier):
     c = m["counters"]
     if c.get("histories", 0) < 100:
         out.append("fewer than 100 histories")
+    if c.get("pha_cross_authenticated", 0) < 20:
+        out.append("fewer than 20 KeyUpdate-crossing-PHA histories ended "
+                   "authenticated")
     if c.get("keyupdates", 0) == 0:
         out.append("no KeyUpdate exercised")
     if c.get("heartbeats", 0) == 0:
